@@ -143,9 +143,15 @@ class C15(hc.PProp):
                 # only the parts are checked against their own Content-Range here, no coverage is demanded (strict rejection is property C28)
                 stats['n206_lenient_syntax'] = stats.get('n206_lenient_syntax', 0) + 1
                 want = []
-            if not m.complete:
-                continue
             ct = m.get(b'content-type') or b''
+            if not m.complete:
+                # nothing in this world cuts a transfer short: a 206 that never completes promised more bytes than it delivers
+                cr = re.match(rb'^bytes\s+(\d+)-(\d+)/(\d+|\*)$', m.get(b'content-range') or b'')
+                if cr and int(cr.group(2)) >= L:
+                    V.append(Violation('C15:range-outside-representation', 'request %s Range %r: Content-Range %s of a %d-byte representation (response never completed)' % (r.id, rng_hdr[0], (m.get(b'content-range') or b'').decode('latin-1'), L)))
+                elif not r.conn.client_gave_up:
+                    V.append(Violation('C15:incomplete-206', 'request %s Range %r on %d bytes: the 206 (Content-Length %r, Content-Range %r) was never completed: %d body bytes arrived' % (r.id, rng_hdr[0], L, m.get(b'content-length'), m.get(b'content-range'), len(m.body))))
+                continue
             mm = re.match(rb'(?i)multipart/byteranges;\s*boundary="?([^";]+)"?', ct)
             if mm:
                 parts = parse_multipart(m.body, mm.group(1))
